@@ -100,6 +100,11 @@ def host_pairs(rng, idx, of):
                 continue
             for tl in (["localhost"], [".localhost", "127.0.0.1"], ["a.com", ".a.com"], [rng.choice(ENTRIES), rng.choice(ENTRIES)], [rng.choice(ENTRIES)]):
                 yield h + port, tl
+            # the host itself listed with a port, and its parent listed with a leading dot and a port
+            if h and ":" not in h:
+                yield h + port, [h + ":8080"]
+                if "." in h:
+                    yield h + port, ["." + h.split(".", 1)[1] + ":443"]
 
 
 def check_hosts(rec, rng, idx, of):
